@@ -56,6 +56,7 @@ func (r *c13Reader) Read(p []byte) (int, error) {
 }
 
 type c13Writer struct {
+	gate  atomic.Pointer[chan struct{}] // when set: Write blocks until the channel is closed (a slow drain)
 	mu    sync.Mutex
 	to    string
 	carry []byte
@@ -69,6 +70,9 @@ func (w *c13Writer) Close() error { return nil }
 // Write tokenises what the relay delivers: payload bytes (>= 0x80) are tokens themselves, an
 // ASCII run up to '\n' is classified as trigger / ACT / CFG / EXIT / FAIL line.
 func (w *c13Writer) Write(p []byte) (int, error) {
+	if g := w.gate.Load(); g != nil {
+		<-*g
+	}
 	w.mu.Lock()
 	defer w.mu.Unlock()
 	data := append(w.carry, p...)
@@ -193,6 +197,10 @@ type c13Scenario struct {
 	Cli     [][]int `json:"cli"`
 	Srv     [][]int `json:"srv"`
 	Confirm bool    `json:"confirm"`
+	// Stale: both ends write an end marker for the first transfer; the server side drains slowly, so that
+	// the relay's input reader (status "transferring" loaded, chunk with the end marker in hand) is held up
+	// in front of its reset until the second transfer's handshake is under way
+	Stale bool `json:"stale,omitempty"`
 }
 
 // c13Gen draws a scenario: plain chunks before / racing / straddling / after the ACT and CFG lines.
@@ -252,7 +260,29 @@ func c13Gen(r *rand.Rand) c13Scenario {
 		s.Cli = append(s.Cli, with(c13END))
 		s.Cli = append(s.Cli, chunks(r.Intn(2), 2)...)
 		if r.Intn(3) == 0 { // a second transfer through the same relay
+			if r.Intn(2) == 0 && next < 225 {
+				s.Stale = true
+				// eleven one-token chunks in front of the END chunk: enough to fill the relay's channel towards
+				// the (held) server writer, so that the END chunk's hand-over blocks
+				ei := -1
+				for i := len(s.Cli) - 1; i >= 0 && ei < 0; i-- {
+					for _, t := range s.Cli[i] {
+						if t == c13END {
+							ei = i
+						}
+					}
+				}
+				var fill [][]int
+				for i := 0; i < 11; i++ {
+					fill = append(fill, plain(1))
+				}
+				s.Cli = append(append(append([][]int(nil), s.Cli[:ei]...), fill...), s.Cli[ei:]...)
+				s.Srv = append(s.Srv, with(c13END)) // the server's own end marker for the first transfer
+			}
 			s.Srv = append(s.Srv, with(c13TRIG-10))
+			if s.Stale {
+				s.Srv = append(s.Srv, plain(1)) // parked while the held-up reset is still to come
+			}
 			s.Cli = append(s.Cli, with(c13ACT-10))
 			s.Srv = append(s.Srv, with(c13CFG-10))
 			s.Srv = append(s.Srv, chunks(r.Intn(2), 2)...)
@@ -357,10 +387,70 @@ func c13Run(tr *vTrace, id int, sc c13Scenario, seed int64) (ok bool) {
 		}
 		return false
 	}
+	// the stale-reset schedule (sc.Stale): see c13Scenario
+	staleFrom, staleOpenAfter := -1, -1
+	var gate chan struct{}
+	var gateOnce sync.Once
+	openGate := func() {
+		gateOnce.Do(func() {
+			if gate != nil {
+				close(gate)
+				toServer.gate.Store(nil)
+			}
+		})
+	}
+	defer openGate()
+	var endRead, staleGiveUp atomic.Bool
+	if sc.Stale {
+		for i, c := range sc.Cli {
+			if has(c, c13END) {
+				staleFrom = i - 11
+			}
+		}
+		for i, c := range sc.Srv {
+			if has(c, c13TRIG-10) {
+				staleOpenAfter = i + 1
+			}
+		}
+		prev := cin.onRead
+		cin.onRead = func(u []int) {
+			prev(u)
+			if has(u, c13END) {
+				endRead.Store(true)
+			}
+		}
+	}
 	var wg sync.WaitGroup
 	feed := func(side string, rd *c13Reader, chunks [][]int) {
 		defer wg.Done()
-		for _, c := range chunks {
+		for ci, c := range chunks {
+			if sc.Stale && side == "c" && ci == staleFrom {
+				// the first transfer is running (handshake flushed) before the server starts to drain slowly
+				if !(waitSeen(toClient, c13CFG, 5*time.Second) && waitFlush(1)) {
+					return
+				}
+				// everything the client fed so far has reached the server: the writer is idle, so that exactly
+				// the eleven fillers fit (one in the writer's hands, ten in the channel)
+				drained := true
+				lastTok, afterAct := -1, false
+				for _, pc := range chunks[:ci] {
+					for _, t := range pc {
+						if t == c13ACT {
+							afterAct = true
+						} else if t >= 128 && afterAct {
+							lastTok = t // what precedes the ACT line may be consumed as junk and never come out
+						}
+					}
+				}
+				if lastTok >= 0 {
+					drained = waitSeen(toServer, lastTok, 3*time.Second)
+				}
+				time.Sleep(time.Millisecond)
+				if drained {
+					gate = make(chan struct{})
+					toServer.gate.Store(&gate)
+				}
+			}
 			// causality: the client answers the trigger it saw; the server answers the ACT it received;
 			// a transfer ends (and a second one starts) only after the handshake worker has finished
 			for _, t := range c {
@@ -378,8 +468,22 @@ func c13Run(tr *vTrace, id int, sc c13Scenario, seed int64) (ok bool) {
 					ok = waitSeen(toServer, c13ACT+off, 5*time.Second)
 				case c13END:
 					ok = waitSeen(toClient, c13CFG+off, 5*time.Second) && waitFlush(1+map[bool]int{false: 0, true: 1}[second])
+					if ok && sc.Stale && side == "s" && !second {
+						// the server's marker comes while the client's is held up inside the relay's input reader
+						for dl := time.Now().Add(3 * time.Second); !endRead.Load() && time.Now().Before(dl); {
+							time.Sleep(200 * time.Microsecond)
+						}
+						if !endRead.Load() { // the schedule did not come about: carry on as an ordinary two-transfer run
+							openGate()
+							staleGiveUp.Store(true)
+							ok = waitSeen(toServer, c13END, 5*time.Second)
+						}
+						time.Sleep(3 * time.Millisecond)
+					}
 				case c13TRIG:
-					if second {
+					if second && sc.Stale && !staleGiveUp.Load() {
+						ok = waitStandby()
+					} else if second {
 						ok = waitSeen(toServer, c13END, 5*time.Second) && waitStandby()
 					}
 				}
@@ -394,6 +498,10 @@ func c13Run(tr *vTrace, id int, sc c13Scenario, seed int64) (ok bool) {
 				time.Sleep(time.Duration(rnd(2)) * time.Millisecond)
 			}
 			rd.ch <- c13Chunk{c13Render(c, uid, sc.Confirm), c}
+			if sc.Stale && side == "s" && ci == staleOpenAfter {
+				time.Sleep(30 * time.Millisecond) // the chunk behind the second trigger is parked by now
+				openGate()
+			}
 		}
 	}
 	wg.Add(2)
